@@ -107,7 +107,8 @@ func CallEndSessionEndpoint(ctx context.Context, request any, authFn any, caller
 	if err != nil {
 		return nil, err
 	}
-	client := caller.HttpClient()
+	// shallow copy: CheckRedirect must not be overwritten on the caller's client
+	client := *caller.HttpClient()
 	client.CheckRedirect = func(_ *http.Request, _ []*http.Request) error {
 		return http.ErrUseLastResponse
 	}
@@ -158,7 +159,8 @@ func CallRevokeEndpoint(ctx context.Context, request any, authFn any, caller Rev
 	if err != nil {
 		return err
 	}
-	client := caller.HttpClient()
+	// shallow copy: CheckRedirect must not be overwritten on the caller's client
+	client := *caller.HttpClient()
 	client.CheckRedirect = func(_ *http.Request, _ []*http.Request) error {
 		return http.ErrUseLastResponse
 	}
